@@ -301,7 +301,15 @@ pub fn gen_float(rng: &mut Rng) -> Counter {
                 Counter::Flt { text: format!("{}.{}e{}", h, t, t.len()), m: a, e: 0 }
             }
         }
-        7 => Counter::Flt { text: rng.pick(&["0.0", "0e0", "0.000", "0E5"]).to_string(), m: 0, e: 0 },
+        7 => {
+            if rng.chance(1, 3) {
+                // exactly 2^64, the largest accepted float: saturates to 2^64-1 (both rounding steps
+                // of serde_json's reader are exact for this literal; `reads_back` re-checks it)
+                Counter::Flt { text: "1.8446744073709552e19".to_string(), m: 1, e: 64 }
+            } else {
+                Counter::Flt { text: rng.pick(&["0.0", "0e0", "0.000", "0E5"]).to_string(), m: 0, e: 0 }
+            }
+        }
         _ => {
             let a = rng.below(5000);
             Counter::Flt { text: format!("{}.0", a), m: a, e: 0 }
@@ -310,8 +318,14 @@ pub fn gen_float(rng: &mut Rng) -> Counter {
 }
 
 pub fn gen_counter(rng: &mut Rng) -> Counter {
-    match rng.below(12) {
+    match rng.below(14) {
         0 | 1 => Counter::Int(0),
+        12 => Counter::Int(rng.range(1, 2)),
+        13 => {
+            // floats around the "positive" threshold: 0.5 truncates to 0, 1.0 and 1.5 to 1
+            let (t, m, e) = *rng.pick(&[("0.5", 1u64, -1i32), ("1.0", 1, 0), ("1.5", 3, -1), ("0.25", 1, -2), ("2.0", 1, 1), ("1e0", 1, 0)]);
+            Counter::Flt { text: t.to_string(), m, e }
+        }
         2 => Counter::Int(*rng.pick(&[u64::MAX, u64::MAX - 1, 1 << 63, (1 << 63) - 1, 1 << 53, (1 << 53) + 1])),
         3 => Counter::Int(rng.next()),
         4..=6 => gen_float(rng),
@@ -524,7 +538,7 @@ pub fn sem(d: &JDoc) -> Vec<(String, CovResult)> {
             cov.lines.insert(l.line_number, l.count.value());
             if !l.branches.is_empty() {
                 cov.branches
-                    .insert(l.line_number, l.branches.iter().map(|b| b.count.value() > 1).collect());
+                    .insert(l.line_number, l.branches.iter().map(|b| b.count.value() > 0).collect());
             }
         }
         for x in &f.functions {
@@ -557,6 +571,7 @@ pub fn features(d: &JDoc) -> Vec<&'static str> {
         Counter::Int(n) if *n >= 1 << 53 => f.push("counter.int_ge_2^53"),
         Counter::Int(_) => f.push("counter.int"),
         Counter::Flt { m: 0, .. } => f.push("counter.float_zero"),
+        Counter::Flt { e: 64, .. } => f.push("counter.float_2^64_saturating"),
         Counter::Flt { e, .. } if *e < 0 => f.push("counter.float_fraction"),
         Counter::Flt { .. } => f.push("counter.float_integral"),
     };
